@@ -73,6 +73,15 @@ def ev(t, env=None):
         return cmath.exp(2j * math.pi * k / m)
     if op == "var":
         return env[t[1]]
+    if op == "arg":      # phase angle in (-pi, pi] (C10: modulus / phase averaging)
+        return cmath.phase(complex(ev(t[1], env)))
+    if op == "xlogx":    # x ln x continued by its limit 0 at x = 0 (C17: pair-entropy integrand)
+        v = ev(t[1], env)
+        return 0.0 if v == 0 else v * math.log(v)
+    if op == "trapz":    # trapezoid rule: ["trapz", [x_1..x_n], [y_1..y_n]] (C17)
+        xs = [ev(x, env) for x in t[1]]
+        ys = [ev(y, env) for y in t[2]]
+        return sum((xs[k + 1] - xs[k]) * (ys[k + 1] + ys[k]) / 2.0 for k in range(len(xs) - 1))
     raise ValueError(f"unknown term constructor {op!r}")
 
 
